@@ -37,6 +37,45 @@ let is_ns_name (name : n list) : bool =
   let s = ascii_safe name in
   s = "xmlns" || (String.length s > 6 && String.sub s 0 6 = "xmlns:")
 
+(* ES / ESI / ER / TS / TSI / TR: the mutators of the read-only maps of a DocumentType (Spec/DomL1ReadOnly.v, reading R8).
+   The state of Spec/DomL1.v does not record notations: the words N<h>=<name.name...|~> (one per DocumentType handle, from
+   the T words of the implementation's record 0) give the fact [declared] of the TS / TSI calls.
+   [nodes]: h -> (kind, fields) of the state before the call. *)
+let ds_ro_op (nodes : (int, string * string array) Hashtbl.t) (rest : string list) (f : string array)
+    (h : int -> (n * n) option) : aro_op option =
+  let fld k = if k < Array.length f then f.(k) else "" in
+  let field fs key =
+    let r = ref "-" in
+    Array.iter (fun x -> match ds_split '=' x with [k; v] when k = key -> r := v | _ -> ()) fs; !r in
+  let doctype_handle x =
+    match Hashtbl.find_opt nodes x with
+    | Some ("dt", _) -> Some x
+    | Some ("doc", fs) ->
+      List.find_opt (fun c -> match Hashtbl.find_opt nodes c with Some ("dt", _) -> true | _ -> false) (ds_hl (field fs "c"))
+    | _ -> None in
+  let notation_names x =
+    match doctype_handle x with
+    | None -> []
+    | Some t ->
+      let key = "N" ^ string_of_int t in
+      List.fold_left (fun acc w -> match ds_split '=' w with
+          | [k; l] when k = key -> if l = "~" then [] else List.map dec (ds_split '.' l)
+          | _ -> acc) [] rest in
+  let m = if f.(0).[0] = 'E' then AEntities else ANotations in
+  match f.(0), h 1 with
+  | ("ER" | "TR"), Some r -> Some (AMapRemoveNamedItem (m, r, dec (fld 2)))
+  | ("ES" | "TS" | "ESI" | "TSI"), Some r ->
+    (match h 2, int_of_string_opt (fld 2) with
+     | Some src, Some sx ->
+       let byname = String.length f.(0) = 2 in
+       let names = if m = ANotations then notation_names sx else [] in
+       let idx = (match int_of_string_opt (fld 3) with Some x when x >= 0 -> x | _ -> max_int) in
+       let declared = if byname then List.mem (dec (fld 3)) names else idx < List.length names in
+       let k = if byname then AByName (dec (fld 3)) else AByIndex (if idx = max_int then ds_usize_max else n_of_int idx) in
+       Some (AMapSetNamedItem (m, r, src, k, declared))
+     | _ -> None)
+  | _ -> None
+
 let () = register "domspec" (fun words ->
   match words with
   | [] -> "skip"
@@ -149,7 +188,11 @@ let () = register "domspec" (fun words ->
       | "ST", Some r -> Some (ASplitText (r, num 2))
       | "PD", Some r -> Some (APISetData (r, s 2))
       | _ -> None in
-    let (a1, oc) = match op with Some o -> dom_step docs o | None -> (docs, ANotOffered) in
+    let (a1, oc) = match op with
+      | Some o -> dom_step docs o
+      | None when List.mem f.(0) ["ES"; "ESI"; "ER"; "TS"; "TSI"; "TR"] ->
+        (match ds_ro_op nodes rest f h with Some o -> dom_step_ro docs o | None -> (docs, ANotOffered))
+      | None -> (docs, ANotOffered) in
     (* ---- handles ---- *)
     let index = Hashtbl.create 64 in
     let hs = ref [] in let cnt = ref 0 in
